@@ -166,6 +166,43 @@ def word_level(ctx, stats, n):
                           {"query": q, "got": got, "want": want, "key": "%s %d %d" % (op, a, b)})
 
 
+def compare_level(ctx, stats, n):
+    """`A B ?lt` ... through the library (value_cst::cmp, constant::operator<): all six comparisons
+    agree with mathematical order; pairs from the lattice, and every negative lattice value against
+    the unsigned number with the same 64-bit pattern (2^64 apart), written in the same radix and in
+    different ones"""
+    rng = ctx.sub_rng("cmpwords")
+    lat = sorted({ival(o) for o in lattice()})
+    pairs = [(a, a + W) for a in lat if a < 0 and a + W < W] + [(a + W, a) for a in lat if a < 0 and a + W < W]
+    pairs += [(a, a) for a in lat[::7]]
+    while len(pairs) < n:
+        pairs.append((rng.choice(lat), rng.choice(lat)))
+    forms = ["%d", "0x%x", "0%o", "0b{0:b}"]
+
+    def lit(z, form):
+        m = abs(z)
+        if form == "0%o" and m == 0:
+            form = "%d"
+        return ("-" if z < 0 else "") + (form.format(m) if "{" in form else form % m)
+    words = [("?lt", lambda a, b: a < b), ("?gt", lambda a, b: a > b), ("?le", lambda a, b: a <= b),
+             ("?ge", lambda a, b: a >= b), ("?eq", lambda a, b: a == b), ("?ne", lambda a, b: a != b)]
+    qs, meta = [], []
+    for k, (a, b) in enumerate(pairs):
+        fa = forms[k % 4]
+        fb = fa if k % 2 == 0 else forms[(k // 4) % 4]
+        q = "%s %s [%s]" % (lit(a, fa), lit(b, fb), ", ".join('?(%s) "%s"' % (w, w) for w, _ in words))
+        qs.append(q)
+        meta.append((a, b))
+    for (a, b), q, r in zip(meta, qs, zw.run_cases([zw.enc(q) for q in qs])):
+        stats["evaluations"] += 6
+        stats["compare_cases"] = stats.get("compare_cases", 0) + 1
+        want = sorted(w for w, f in words if f(a, b))
+        got = sorted(bytes.fromhex(x["v"]).decode() for x in r.results[0][0]["v"]) if r.ok() and len(r.results) == 1 else None
+        if got != want:
+            ctx.violation("query `%s`: the comparisons that hold are %s; by mathematical order of %d and %d they are %s" % (q, got, a, b, want),
+                          {"query": q, "got": got, "want": want, "key": "cmp %d %d" % (a, b)})
+
+
 def literal_level(ctx, stats):
     """Integer literals at and beyond the range boundaries, every prefix:
     in range -> exactly that value in the prefix's domain; out of range -> the
@@ -226,6 +263,7 @@ def run_check(ctx):
     if os.path.exists(common.impl_bin("zwdrv")):
         word_level(ctx, stats, 3000 if ctx.tier == "quick" else 30000)
         literal_level(ctx, stats)
+        compare_level(ctx, stats, 1500 if ctx.tier == "quick" else 15000)
 
     found_input = bool(ctx.violations)
     common.report_broken_obligations(ctx, oblig, found_input)
